@@ -36,6 +36,23 @@ def run(chk):
         f = g.derive()
         derived.append((f, d))
         cases.append((("pipe", f, ("collect", ("pipe", ("index", ("self",), None), ("path",)))), d))
+    # updates followed by path queries: after any sequence of assignments / deletes the document must still be well-keyed
+    hist = []
+    for _ in range(n):
+        d = evalgen.gen_doc(chk.rng)
+        g.set_doc(d)
+        u = g.update()
+        k = chk.rng.random()
+        if k < 0.4:
+            u = ("pipe", u, g.update())
+        elif k < 0.6:
+            # copy a container elsewhere, then delete from the original: the copy must keep its own keys
+            seqs = [p for p in evalgen.doc_paths(d) if isinstance(evalgen._get(d, p), list) and len(evalgen._get(d, p)) >= 2]
+            if seqs:
+                sp = chk.rng.choice(seqs)
+                u = ("pipe", ("assign", ("getkey", "z"), path_expr(sp)), ("del", ("index", path_expr(sp), lit(chk.rng.choice([0, 1])))))
+        hist.append((u, d))
+        cases.append((("pipe", u, q_paths), d))
     impl, mm, unsup, err = evalcheck.correspondence(chk, cases, "c16_cases")
     if err:
         broken.append("model evaluation failed: " + err[-600:])
@@ -53,6 +70,41 @@ def run(chk):
                 if nviol <= 5:
                     chk.violation({"kind": "eval", "expr": evalgen.render(q), "doc": d, "impl": g_.decode("utf-8", "replace"), "expect": w_.decode("utf-8", "replace")},
                                   True, "`%s` does not describe where the nodes are" % what)
+    stale = {}
+    # ---- history oracle
+    hoff = 3 * len(docs) + len(derived)
+    hdocs = evalcheck.impl_eval(hist)
+    import c02
+    for i, (u, d) in enumerate(hist):
+        got = impl[hoff + i]
+        res = evalcheck.results_of(hdocs[i])
+        if not got.startswith(b"OK") or res is None or len(res) != 1:
+            chk.count(("hist", evalgen.render(u), json.dumps(d)), nontrivial=False)
+            continue
+        try:
+            after = c02.unser_json(res[0])
+        except Exception:
+            continue
+        want = b"OK\n" + evalcheck.ser([list(p) for p in evalgen.doc_paths(after)]) + b"\n"
+        chk.count(("hist", evalgen.render(u), json.dumps(d)), nontrivial=True)
+        # an integer-tagged map key (created by `.[-1] = v` on a map) prints as an int in `path`: compare element texts
+        def texts(b):
+            try:
+                r_ = evalcheck.results_of(b)
+                return [[str(x) for x in evalcheck.unser_paths(y)] for y in c03.split_items(r_[0])]
+            except Exception:
+                return b
+        if got != want and texts(got) != texts(want):
+            # a rebuilt container written back into the document carries its stale keys with it: the recorded class,
+            # provided the model (AddChild keeps a Key) predicts exactly this output
+            rb = [o for o in c03.STALE_OPS if o in evalgen.ops_of(u)]
+            if rb and (hoff + i) not in mm and (hoff + i) not in evalcheck.LAST_UNSUP and chk.is_known("stale-key-" + rb[0]):
+                stale.setdefault(rb[0], (evalgen.render(cases[hoff + i][0]), d, got, want))
+                continue
+            nviol += 1
+            if nviol <= 5:
+                chk.violation({"kind": "eval", "expr": evalgen.render(cases[hoff + i][0]), "doc": d, "impl": got.decode("utf-8", "replace"),
+                               "expect": want.decode("utf-8", "replace")}, True, "after an update the nodes no longer report where they are")
     # ---- re-traversal: traversing each reported path returns the node (sampled)
     rt = []
     for d in docs[: (len(docs) // 4)]:
@@ -70,7 +122,6 @@ def run(chk):
     # ---- derived containers: children must report container-path ++ [position]
     off = 3 * len(docs)
     fvals = evalcheck.impl_eval([(("pipe", f, ("union", ("path",), ("length",))), d) for f, d in derived])
-    stale = {}
     for i, (f, d) in enumerate(derived):
         got = impl[off + i]
         res = evalcheck.results_of(fvals[i])
